@@ -53,6 +53,7 @@ def run_search(domain, seed=1, timeout=1800, scale=1):
     if not line:
         raise RuntimeError('witness search produced no verdict: ' + p.stderr[-500:])
     r = json.loads(line[-1])
+    r['seed'] = seed
     r['wall_s'] = time.time() - t0
     r['cmd'] = 'WITNESS_SCALE=%d ' % scale + ' '.join(cmd)
     return r
@@ -66,12 +67,12 @@ def search(pid, obligation_name=None):
         except Exception:
             continue
         if r.get('found'):
-            return {'domain': dom, 'input': r['input'], 'expected': r['expected'], 'actual': r['actual']}
+            return {'domain': dom, 'input': r['input'], 'expected': r['expected'], 'actual': r['actual'], 'seed': r.get('seed', 1)}
     return None
 
 
 def replay(w):
     exe = _exe()
-    p = subprocess.run([exe, 'replay', w['domain'], w['input']], capture_output=True, text=True, timeout=900)
+    p = subprocess.run([exe, 'replay', w['domain'], w['input'], str(w.get('seed', 1))], capture_output=True, text=True, timeout=900)
     print(p.stdout.strip())
     return 1 if p.returncode == 1 else 0
